@@ -428,6 +428,7 @@ func runC07(c *Ctx) {
 	checkAttrsValidatedAtDecode(c, "R6")
 	// R7: a handler blocked on its request context must be released before Serve joins the workers (shared with C11.R11)
 	checkContextCancelledBeforeJoin(c, "R7")
+	checkHandleCommandsOrdered(c, "R8")
 }
 
 // checkJoinUnderLock: a function that waits for goroutines (WaitGroup.Wait) must not hold a mutex that the
@@ -777,4 +778,41 @@ func checkAttrsValidatedAtDecode(c *Ctx, rule string) {
 		c.check(good, rule, key, p.Pos(val.Pos()), "nil only after unmarshalFileStat(flags, rest) succeeded on the stored flags and bytes", tn+": "+why)
 	}
 	c.check(n >= 4, rule, "requests with an attribute block", "?", fmt.Sprintf("%d decoders", n), fmt.Sprintf("only %d request decoders with a Flags word found (OPEN, MKDIR, SETSTAT, FSETSTAT expected)", n))
+}
+
+// checkHandleCommandsOrdered (C07.R8): the draft requires requests on one file to be processed in the order received.
+// READ and WRITE run on parallel workers; a command on the same handle (FSTAT, FSETSTAT) that the dispatcher hands to
+// the command worker without waiting for them overtakes them.  CLOSE waits (C14); the others are decided here, one
+// obligation per request type.
+func checkHandleCommandsOrdered(c *Ctx, rule string) {
+	p := c.P
+	d := getDispatcher(c, rule)
+	if d == nil || d.pktVal == nil {
+		return
+	}
+	head := switchHead(d.disp, d.pktVal)
+	isWait := func(in ssa.Instruction) bool {
+		cc := callOf(in)
+		return cc != nil && isWGCall(cc, "Wait")
+	}
+	isSend := func(in ssa.Instruction) bool { _, ok := in.(*ssa.Send); return ok }
+	for _, tn := range []string{"sshFxpFstatPacket", "sshFxpFsetstatPacket"} {
+		nt := p.NamedType(p.Sftp, tn)
+		if nt == nil {
+			c.missing(rule, tn)
+			continue
+		}
+		body, _, _, from := simulateFrom(head, newPtr(nt))
+		start := body
+		if start == nil {
+			start = from
+		}
+		if start == nil {
+			c.und(rule, tn+" is ordered after earlier reads and writes", p.Pos(d.disp.Pos()), "cannot follow the dispatcher for this type")
+			continue
+		}
+		overtakes := reachFromBlock(start, isSend, isWait)
+		c.check(!overtakes, rule, strings.TrimSuffix(strings.TrimPrefix(tn, "sshFxp"), "Packet")+" is ordered after earlier reads and writes", p.Pos(start.Instrs[0].Pos()),
+			"working.Wait() before the hand-off", "the request is handed to the command worker while earlier READs/WRITEs of the same handle may still be running on the parallel workers: it is applied before them (pipelined WRITE | FSTAT | FSETSTAT size=5 | CLOSE: FSTAT reports the old size, the file ends with the WRITE's length)")
+	}
 }
